@@ -203,10 +203,16 @@ func genConversation(t *sim.Tape, allowV6 bool) conversation {
 	return c
 }
 
+var bigSizes = []uint32{1500, 9000, 65535, 65536, 65549, 196000, 1 << 24, 1<<31 + 5, 0xFFFFFFFF}
+
 // packet draws the i-th packet of the conversation (i=0 is the first request).
 func (c conversation) packet(t *sim.Tape, n int, tag int) pkt {
 	fromA := n == 0 || t.Draw(2) == 0
 	p := pkt{v4: c.v4, proto: c.proto, kind: "ok", tag: tag, size: uint32(40 + t.Draw(1400))}
+	if t.Chance(1, 8) {
+		// the wire size is a 32-bit quantity (GRO/TSO aggregates exceed 64 KiB)
+		p.size = sim.Pick(t, bigSizes)
+	}
 	if fromA {
 		p.sip, p.dip, p.sport, p.dport = c.a, c.b, c.pa, c.pb
 	} else {
